@@ -18,17 +18,20 @@ struct SdoEnv {
         NodeCfg cfg; cfg.nodeId = nodeId; cfg.freq = 1000; cfg.tmrNum = 8;
         w.verbose = verbose; w.build(0, cfg, d.specs); w.init(0); w.start(0);
         if (plan.c("oper", 0)) { w.rx(0, Frame(0, 2, {1, 0})); w.canproc(0); }
+        if (plan.c("poolfull", 0)) { w.cur = 0; while (COTmrCreate(&w.N(0)->Tmr, 1000000, 0, [](void *) {}, nullptr) >= 0) {} (void)CONodeGetErr(w.N(0)); cov.hit("F15-timer-pool-full"); }   // every timer slot taken by the application
         size_t off = 0; for (auto &s : w.s[0].specs) { size_t n = w.bytes(0, s.idx, s.sub).size(); range.push_back({off, n}); off += n; }
         if (CONodeGetErr(w.N(0)) != CO_ERR_NONE) fail("setup/node-error", "node reports an error after initialisation");
     }
     std::pair<size_t, size_t> objRange(uint16_t idx, uint8_t sub) { for (size_t i = 0; i < w.s[0].specs.size(); i++) if (w.s[0].specs[i].idx == idx && w.s[0].specs[i].sub == sub) return range[i]; return {0, 0}; }
     // deliver 'copies' of req to server srv, one CONodeProcess each; returns frames the node emitted on that server's TxId
-    std::vector<Frame> exchange(int srv, Frame req, int copies, size_t *count = nullptr) {
-        req.id = rxid(srv); size_t m = w.mark(); std::vector<Frame> out;
+    // 'firstFail' (optional): frames the driver refused are then part of the result (the server built them) and *firstFail is the index of the first refused one (-1 none)
+    std::vector<Frame> exchange(int srv, Frame req, int copies, size_t *count = nullptr, int *firstFail = nullptr) {
+        req.id = rxid(srv); size_t m = w.mark(); std::vector<Frame> out; if (firstFail) *firstFail = -1;
         for (int i = 0; i < copies; i++) { w.rx(0, req); w.canproc(0); cov.frames_in++; }
         for (size_t i = m; i < w.evs.size(); i++) {
             const Ev &e = w.evs[i];
-            if (e.kind == EV_TX) { cov.frames_out++; if (e.f.id == txid(srv)) { out.push_back(e.f); if (e.f.dlc != 8) fail("resp-dlc", "SDO response with DLC " + std::to_string(e.f.dlc)); } else fail("foreign-tx", "frame on another COB-ID while serving an SDO request: " + e.f.str()); }
+            if (e.kind == EV_TXFAIL && firstFail && e.f.id == txid(srv)) { if (*firstFail < 0) *firstFail = (int)out.size(); out.push_back(e.f); }
+            else if (e.kind == EV_TX) { cov.frames_out++; if (e.f.id == txid(srv)) { out.push_back(e.f); if (e.f.dlc != 8) fail("resp-dlc", "SDO response with DLC " + std::to_string(e.f.dlc)); } else fail("foreign-tx", "frame on another COB-ID while serving an SDO request: " + e.f.str()); }
             else if (e.kind == EV_CANRECEIVE) fail("sdo-to-app", "SDO request handed to the application callback");
         }
         if (w.s[0].txInOp > 127 + CO_TPDO_N + 2) fail("tx-bound", "more than the bounded number of frames in one processing step");
@@ -82,16 +85,18 @@ struct XferRun : SdoEnv {
         cov.hit(std::string(s.upload ? "up-" : "dn-") + (s.mode == M_EXP ? "exp" : s.mode == M_SEG ? "seg" : "blk"));
         if (other.active && !other.s.finished()) { cov.hit("two-servers-interleaved"); nontrivial = true; }
     }
-    void step(int k) {
+    void step(int k, int failAfter = -1) {
         Live &l = L[k & 1]; if (!l.active || l.s.finished() || !v.ok) return;
         Session &s = l.s;
         std::vector<uint8_t> img = w.image(0);
+        if (failAfter >= 0) w.s[0].sendFailAfter = failAfter;     // F5: the CAN driver refuses one frame of this exchange
         int fault = s.faultForNext(); int copies = fault == 1 ? 0 : fault == 2 ? 2 : 1;
         if (fault == 1) cov.hit("F1-segment-lost"); if (fault == 2) cov.hit("F2-segment-duplicated");
         Frame f = s.next();
         std::vector<uint8_t> truth = s.upload ? l.truthAtStart : std::vector<uint8_t>();
-        std::vector<Frame> resp = exchange(s.srv, f, copies);
-        s.onResponses(resp, copies, truth);
+        int firstFail = -1; std::vector<Frame> resp = exchange(s.srv, f, copies, nullptr, &firstFail); w.s[0].sendFailAfter = -1;
+        if (firstFail >= 0) { cov.hit("F5-sdo-response-refused-by-driver"); nontrivial = true; }
+        s.onResponses(resp, copies, truth, firstFail);
         if (!l.checked) { recovered[s.srv] = false; if (!s.viol.empty()) { s.viol.clear(); s.ph = Session::P_DONE; } if (s.finished()) l.active = false; return; }
         if (!s.viol.empty()) { fail(std::string(s.upload ? "up/" : "dn/") + s.viol, s.detail + " (object " + hex4(s.idx) + ":" + std::to_string(s.sub) + " mode " + std::to_string(s.mode) + " step " + std::to_string(s.stepsTaken) + ")"); return; }
         // isolation: only the target object of this session may have changed
@@ -104,7 +109,7 @@ struct XferRun : SdoEnv {
     void finish(Live &l) {
         Session &s = l.s; const SdoObj &ob = *l.o;
         std::string what = hex4(s.idx) + ":" + std::to_string(s.sub) + " mode " + std::to_string(s.mode) + (s.upload ? " upload" : " download len " + std::to_string(s.payload.size()) + (s.announce ? " announced" : " not announced"));
-        if (s.abortedByClient) { cov.hit("client-abort-after-lost-final-segment"); return; }
+        if (s.abortedByClient) { cov.hit(s.lostResponse ? "client-abort-after-lost-response" : "client-abort-after-lost-final-segment"); return; }
         if (s.refused) {
             cov.hit("refused");
             if (l.mustConfirm) fail(s.upload ? "up/refused-valid" : "dn/refused-valid", "conforming transfer refused with abort " + hex8(s.abortCode) + ": " + what);
@@ -177,6 +182,8 @@ struct XferRun : SdoEnv {
         if (cmd == 0x80) { cov.hit("client-abort"); return; }           // how an abort is acknowledged is not constrained
         bool changed = w.image(0) != img;
         auto isAbort = [&](const Frame &r) { return r.d[0] == 0x80; };
+        // whatever the reason: a request that arrives in idle state and is refused changes nothing
+        if (st == ST_IDLE && resp.size() == 1 && isAbort(resp[0]) && changed) { fail("req/refused-but-changed", "request refused with " + hex8(resp[0].u32(4)) + " although object storage changed" + ctx); return; }
         auto abortWith = [&](uint32_t code, const char *rule) {
             if (resp.size() != 1) { fail(std::string("req/count-") + rule, std::to_string(resp.size()) + " responses" + ctx); return; }
             if (!isAbort(resp[0])) { fail(std::string("req/not-refused-") + rule, "expected abort " + hex8(code) + ", got " + resp[0].str() + ctx); return; }
@@ -229,6 +236,7 @@ struct XferRun : SdoEnv {
                 if (m.kind == 3) { if (exped) abortWith(0x06060000u + (uint32_t)plan.c("usercode", 0x10), "type-code"); return; }
                 if (m.kind == 5) { uint32_t e = w.ospec(0, idx, sub)->val; if (exped) abortWith(e == CO_ERR_OBJ_RANGE ? 0x06090030u : e == CO_ERR_OBJ_MAP_TYPE ? 0x06040041u : e == CO_ERR_OBJ_MAP_LEN ? 0x06040042u : 0x06040043u, "type-reject-code"); return; }
                 if (m.kind == 2) { abortWith(0, "string-write"); return; }
+                if (isAbort(resp[0]) && plan.c("poolfull", 0) && idx == 0x1017) { cov.hit("heartbeat-time-refused-with-full-timer-pool"); return; }   // no slot for the producer: refusing is legitimate (and changed nothing, see above)
                 if (isAbort(resp[0])) { fail("req/valid-refused", "valid download initiate refused with " + hex8(resp[0].u32(4)) + ctx); return; }
                 if (resp[0].d[0] != 0x60) { fail("req/dn-init-cmd", resp[0].str() + ctx); return; }
                 cov.hit("verdict-accepted"); return;
@@ -288,10 +296,10 @@ struct XferRun : SdoEnv {
         for (opi = 0; opi < (int)plan.ops.size() && v.ok; opi++) {
             const Op &o = plan.ops[(size_t)opi]; w.opIndex = (uint32_t)opi; cov.ops++;
             if (o.k == "begin") begin(o);
-            else if (o.k == "step") step((int)o.arg(0));
+            else if (o.k == "step") step((int)o.arg(0), (int)o.arg(1, -1));
             else if (o.k == "finish") { int guard = 6000; while (v.ok && L[o.arg(0) & 1].active && !L[o.arg(0) & 1].s.finished() && guard-- > 0) step((int)o.arg(0)); if (guard <= 0) fail("endless-transfer", "transfer did not end within 6000 client frames"); }
             else if (o.k == "req") req(o);
-            else if (o.k == "g") { Frame f(0, (uint8_t)o.arg(1, 8), o.b); garbage((int)(o.arg(0) % nsrv), f); }
+            else if (o.k == "g") { Frame f(0, (uint8_t)o.arg(1, 8), o.b); if (o.arg(2, -1) >= 0) { w.s[0].sendFailAfter = (int)o.arg(2); cov.hit("F5-sdo-response-refused-by-driver"); } garbage((int)(o.arg(0) % nsrv), f); w.s[0].sendFailAfter = -1; }
             else if (o.k == "abort") { int srv = (int)(o.arg(0) % nsrv); Frame f(0, 8, {0x80, 0, 0, 0, 0, 0, 0, 0}); garbage(srv, f); }
             else if (o.k == "resetcom") { size_t m = w.mark(); w.rx(0, Frame(0, 2, {(uint8_t)(o.arg(0) ? 129 : 130), 0})); w.canproc(0); L[0].active = L[1].active = false; recovered[0] = recovered[1] = true; bool boot = false; for (auto &fr : w.txSince(m)) boot |= fr.id == 0x700u + nodeId; if (!boot) fail("reset/no-bootup", "no boot-up frame after NMT reset"); cov.hit("reset-communication"); }
             else if (o.k == "tick") w.tick(0, (uint64_t)o.arg(0));
@@ -331,8 +339,9 @@ static Plan gen_xfer(Rng &r, bool thorough, bool upload) {
         bool two = r.chance(1, 3);
         p.ops.push_back(gen_begin(r, 0, r.chance(1, 8) ? !upload : upload, thorough));
         if (two) p.ops.push_back(gen_begin(r, 1, r.chance(1, 3) ? !upload : upload, thorough));
-        int n = (int)r.range(0, 12);
-        for (int i = 0; i < n; i++) { int c = (int)r.below(10); if (c < 7) p.ops.push_back(Op("step", {two ? (int64_t)r.below(2) : 0})); else if (c == 7) p.ops.push_back(Op("tick", {r.range(1, 50)})); else if (c == 8) { std::vector<uint8_t> b; for (int j = 0; j < 8; j++) b.push_back(r.byte()); p.ops.push_back(Op("noise", {r.pick<int64_t>({0x80, 0x181, 0x701, 0x7FF, 0x5FF, 0x100, 0x7E6})}, b)); } else p.ops.push_back(Op("read", {(int64_t)r.below(14)})); }
+        bool faulty = r.chance(1, 4);     // F5: in a quarter of the sessions the CAN driver refuses some of the server's frames
+        int n = (int)r.range(0, faulty ? 30 : 12);
+        for (int i = 0; i < n; i++) { int c = (int)r.below(10); if (c < 7) p.ops.push_back(Op("step", {two ? (int64_t)r.below(2) : 0, faulty && r.chance(1, 4) ? (int64_t)r.below(5) : -1})); else if (c == 7) p.ops.push_back(Op("tick", {r.range(1, 50)})); else if (c == 8) { std::vector<uint8_t> b; for (int j = 0; j < 8; j++) b.push_back(r.byte()); p.ops.push_back(Op("noise", {r.pick<int64_t>({0x80, 0x181, 0x701, 0x7FF, 0x5FF, 0x100, 0x7E6})}, b)); } else p.ops.push_back(Op("read", {(int64_t)r.below(14)})); }
         p.ops.push_back(Op("finish", {0})); if (two) p.ops.push_back(Op("finish", {1}));
     }
     return p;
@@ -358,15 +367,17 @@ static Frame gen_request(Rng &r, const SdoDict &d) {
     return f;
 }
 static Plan gen_req(Rng &r, bool thorough) {
-    Plan p; gen_cfg(r, p); p.cfg["usercode"] = r.range(1, 0xFF);
+    Plan p; gen_cfg(r, p); p.cfg["usercode"] = r.range(1, 0xFF); p.cfg["poolfull"] = r.chance(1, 6);
     SdoDict d; d.build(p, 1);
     int rounds = (int)r.range(1, thorough ? 10 : 6);
     for (int i = 0; i < rounds; i++) {
         int64_t srv = r.below(2);
         if (r.chance(1, 2)) { Op b = gen_begin(r, 0, r.chance(1, 2), thorough); b.a[1] = srv; b.a[5] = 0; if (r.chance(2, 3)) b.a[2] = r.range(14, 16); b.b.clear(); p.ops.push_back(b); int n = (int)r.range(1, 6); for (int j = 0; j < n; j++) p.ops.push_back(Op("step", {0})); }
         Frame f = gen_request(r, d);
+        if (p.cfg["poolfull"] && r.chance(1, 3)) { f = Frame(0, 8, {0x2B, 0x17, 0x10, 0, (uint8_t)r.pick<int>({0, 10, 100, 232}), (uint8_t)r.below(4), 0, 0}); }   // heartbeat producer time while no timer slot is free
         p.ops.push_back(Op("req", {srv}, std::vector<uint8_t>(f.d, f.d + 8)));
         p.ops.push_back(Op("abort", {srv}));
+        if (p.cfg["poolfull"] && r.chance(1, 2)) { Frame g2(0, 8, {0x40, 0x17, 0x10, 0, 0, 0, 0, 0}); p.ops.push_back(Op("req", {srv}, std::vector<uint8_t>(g2.d, g2.d + 8))); p.ops.push_back(Op("abort", {srv})); }
     }
     return p;
 }
@@ -378,8 +389,8 @@ static Plan gen_wedge(Rng &r, bool thorough) {
     int n = (int)r.range(0, thorough ? 120 : 50);
     for (int i = 0; i < n; i++) {
         int c = (int)r.below(10);
-        if (c < 6) { Frame f = r.chance(3, 4) ? gen_request(r, d) : sdo_garbage(r, d); p.ops.push_back(Op("g", {r.chance(5, 6) ? srv : (int64_t)r.below(2), (int64_t)f.dlc}, std::vector<uint8_t>(f.d, f.d + 8))); }
-        else if (c < 8) { Op b = gen_begin(r, 0, r.chance(1, 2), thorough); b.a[1] = srv; p.ops.push_back(b); int k = (int)r.range(0, 8); for (int j = 0; j < k; j++) p.ops.push_back(Op("step", {0})); if (r.chance(1, 2)) { Frame f = sdo_garbage(r, d); p.ops.push_back(Op("g", {srv, 8}, std::vector<uint8_t>(f.d, f.d + 8))); } }
+        if (c < 6) { Frame f = r.chance(3, 4) ? gen_request(r, d) : sdo_garbage(r, d); p.ops.push_back(Op("g", {r.chance(5, 6) ? srv : (int64_t)r.below(2), (int64_t)f.dlc, r.chance(1, 10) ? (int64_t)r.below(2) : -1}, std::vector<uint8_t>(f.d, f.d + 8))); }
+        else if (c < 8) { Op b = gen_begin(r, 0, r.chance(1, 2), thorough); b.a[1] = srv; p.ops.push_back(b); int k = (int)r.range(0, 8); for (int j = 0; j < k; j++) p.ops.push_back(Op("step", {0, r.chance(1, 5) ? (int64_t)r.below(3) : -1})); if (r.chance(1, 2)) { Frame f = sdo_garbage(r, d); p.ops.push_back(Op("g", {srv, 8}, std::vector<uint8_t>(f.d, f.d + 8))); } }
         else if (c == 8) p.ops.push_back(Op("tick", {r.range(1, 20)}));
         else { Frame f = sdo_garbage(r, d); p.ops.push_back(Op("g", {(int64_t)r.below(2), (int64_t)f.dlc}, std::vector<uint8_t>(f.d, f.d + 8))); }
     }
